@@ -110,6 +110,17 @@ func valuesFor(under string, rng *vh.Rng, n int) []val {
 		for _, f := range []float64{0, 1.5, 100.9, 0.1, 16777217, -2.75, 126.99, 3e9, -1e18} {
 			out = append(out, val{Lit: strconv.FormatFloat(f, 'g', -1, 64), F: f})
 		}
+		if n >= 10 {
+			// thorough tier: PRNG values with a 24-bit mantissa (exactly representable as float32 and float64, so
+			// floatFits is exact for both source kinds), magnitudes 2^-30 .. 2^64
+			for i := 0; i < n/2; i++ {
+				f := math.Ldexp(float64(rng.U64()>>40), rng.Intn(71)-30)
+				if rng.Bool() {
+					f = -f
+				}
+				out = append(out, val{Lit: strconv.FormatFloat(f, 'g', -1, 64), F: f})
+			}
+		}
 		return out
 	case isComplex(under):
 		return []val{{Lit: "0"}, {Lit: "(1.5+2i)"}, {Lit: "(0.1-0.1i)"}, {Lit: "(16777217+1e-3i)"}}
@@ -439,7 +450,7 @@ func main() {
 	a := vh.ParseArgs()
 	rng := vh.NewRng(a.Seed)
 	rep := vh.NewReport(a, "conversions T(x): all 29x29 ordered pairs of {17 basic kinds, []byte, []rune, 10 named variants}; per source type boundary values (min, max, 0, +-1, 65, 127/128, 255/256, 0x4e16, surrogate 0xD800, 0x10FFFF, 0x110000, 1<<31, 1<<32+65, ...) plus PRNG values; "+
-		"strings/[]byte with valid, truncated, overlong, surrogate and out-of-range UTF-8; []rune with invalid code points; floats incl. values needing rounding (float->integer only when the truncated value fits the target; no float overflow); "+
+		"strings/[]byte with valid, truncated, overlong, surrogate and out-of-range UTF-8; []rune with invalid code points; floats incl. values needing rounding, in the thorough tier also PRNG floats with 24-bit mantissas and exponents -30..40 (float->integer only when the truncated value fits the target; no float overflow); "+
 		"three operand modes: variable (non-constant), typed constant S(lit), untyped constant lit; every Eval is `hook(); T(x)`: a rejected conversion must not run the hook; "+
 		"oracle: go/types (compiles or not) + one compiled Go program (values as canonical text, IEEE bit patterns) + static result type name; corpus/C03/*.json replayed first. "+
 		"A case is non-trivial when source and target types differ and Go accepts it; distinct by SHA-256 of mode+expression")
@@ -452,7 +463,6 @@ func main() {
 			ir.Eval(t.Decl)
 		}
 	}
-	wd := vh.NewWatchdog(rep, 60*time.Second)
 	nRand := 3
 	if a.Thorough() {
 		nRand = 40
@@ -513,9 +523,12 @@ func main() {
 
 	typeCheck(cases, rep)
 	compileBatch(a.Path("oracle"), cases, rep)
+	// the watchdog guards the implementation only: it starts after the (slow, load-dependent) oracle build,
+	// and is generous because a single Eval can take minutes of wall time on a heavily loaded machine
+	wd := vh.NewWatchdog(rep, 10*time.Minute)
 
 	header := "From Coq Require Import List NArith ZArith QArith.\nFrom Verif Require Import Common.GoInt C03.Model.\nImport ListNotations.\nOpen Scope Z_scope."
-	cw := vh.NewCases(a, header, "case", "mismatches", 600)
+	cw := vh.NewCases(a, header, "case", "mismatches", 700)
 	fail := func(c *ccase, what string, got, want interface{}) {
 		rep.Dist("FAIL:" + what)
 		rep.Fail(vh.Failure{Key: c.key(), What: what, Input: c, Got: got, Want: want})
